@@ -9,6 +9,7 @@ package main
 
 import (
 	"context"
+	"encoding/json"
 	"errors"
 	"fmt"
 	"math"
@@ -130,7 +131,30 @@ func shortFunc(f string) string {
 var reMake = regexp.MustCompile(`^\s*([A-Za-z_][A-Za-z0-9_.]*)\s*:?=\s*make\(`)
 var srcCache = map[string][]string{}
 
+// overlayMap: when the check is built with VERIF_PATCHES the binary's file names are still the /repo
+// paths but the line numbers refer to the patched copies; scripts/check.sh leaves the overlay that was
+// used in build/overlay-<tag>.json, where <tag> is also the suffix of VERIF_ROOT.
+var overlayMap = func() map[string]string {
+	root := os.Getenv("VERIF_ROOT")
+	i := strings.LastIndex(root, "/root-")
+	if i < 0 {
+		return nil
+	}
+	b, err := os.ReadFile(root[:i] + "/overlay-" + root[i+6:] + ".json")
+	if err != nil {
+		return nil
+	}
+	var o struct{ Replace map[string]string }
+	if json.Unmarshal(b, &o) != nil {
+		return nil
+	}
+	return o.Replace
+}()
+
 func lhsOfMake(file string, line int) string {
+	if r, ok := overlayMap[file]; ok && r != "" {
+		file = r
+	}
 	ls, ok := srcCache[file]
 	if !ok {
 		if b, err := os.ReadFile(file); err == nil {
